@@ -291,6 +291,30 @@ def check_bound(ctx, case):
                       lambda: "%s %s=%r %s=%r gives %s=%r %s=%r" % (how, kind, v, other, ov, kind, getattr(x, attr), other, getattr(x, other)))
         else:
             ctx.raises("bounds/%s" % kind, (ValueError,), f)
+    # the same attribute twice in one call - a legal value in the dict and this one as the keyword, and the other way round: an
+    # out-of-range value is rejected wherever it stands
+    if not inside:
+        legal = 3 if kind == "channel" else 70
+        for how, f in (("set_note-dict-legal+keyword", lambda: Note("A", 2).set_note("D", 5, {kind: legal}, **{kind: v})),
+                       ("constructor-dict-legal+keyword", lambda: Note("D", 5, {kind: legal}, **{kind: v}))):
+            ctx.raises("bounds/%s" % kind, (ValueError,), f)  # the documented keyword carries the illegal value
+        # the other way round the keyword may simply replace the entry of the (deprecated) dict, which is then never used: the
+        # call is rejected or the note carries the legal value - no note carrying the illegal one may come out
+        for how, f in (("Note('D', 5, {%s: bad}, %s=legal)" % (kind, kind), lambda: Note("D", 5, {kind: v}, **{kind: legal})),
+                       ("set_note('D', 5, {%s: bad}, %s=legal)" % (kind, kind), lambda: Note("A", 2).set_note("D", 5, {kind: v}, **{kind: legal}))):
+            try:
+                x = f()
+            except ValueError:
+                continue
+            if isinstance(x, Note):
+                ctx.check(getattr(x, attr) == legal, "bounds/%s/out-of-range-value-on-a-note" % kind,
+                          lambda: "%s with bad = %r carries %s %r" % (how, v, kind, getattr(x, attr)))
+    else:
+        # a note made from an integer together with a legal value keeps the integer's pitch (and takes the value or leaves the default)
+        for i in (0, 11, 36, 47, 48, 59, 60, 61, 100, 127):
+            for how, f in (("Note(%d, %s=)" % (i, kind), lambda: Note(i, **{kind: v})), ("Note(%d, 4, {%s})" % (i, kind), lambda: Note(i, 4, {kind: v}))):
+                x = ctx.ok("int-constructor", f)
+                ctx.check(failed(x) or int(x) == i, "int-constructor/pitch-with-dynamics", lambda: "%s with %r gives pitch %r" % (how, v, int(x)))
     # a note made from an integer (or copied from another note) together with such a value: an out-of-range value is either
     # rejected or not taken over - a note carrying it must never come out
     if not inside:
